@@ -303,6 +303,10 @@ func (o *OrderedCollection) GobDecode(data []byte) error {
 
 // OrderedCollectionPageNew initializes a new OrderedCollectionPage
 func OrderedCollectionPageNew(parent CollectionInterface) *OrderedCollectionPage {
+	if parent == nil || IsNil(parent) {
+		// a page of nothing
+		return &OrderedCollectionPage{Type: OrderedCollectionPageType}
+	}
 	p := OrderedCollectionPage{
 		PartOf: parent.GetLink(),
 	}
